@@ -61,14 +61,17 @@ class VectorialAsofDateParameterNodeAtInstant(VectorialParameterNodeAtInstant):
             names = list(
                 self.dtype.names,
             )  # Get all the names of the subnodes, e.g. ['before_X', 'after_X', 'after_Y']
-            values = numpy.asarray(list(self.vector[0]))
+            # One line per subnode, one column per row of the vector: a vector
+            # obtained by a previous date indexing has several rows.
+            values = numpy.asarray([self.vector[name] for name in names])
+            rows = numpy.arange(len(self.vector)) if len(self.vector) > 1 else 0
             names = [name for name in names if not name.startswith("before")]
             names = [
                 numpy.datetime64("-".join(name[len("after_") :].split("_")))
                 for name in names
             ]
             conditions = sum([name <= key for name in names])
-            result = values[conditions]
+            result = values[conditions, rows]
 
             # If the result is not a leaf, wrap the result in a vectorial node.
             if numpy.issubdtype(result.dtype, numpy.record) or numpy.issubdtype(
